@@ -9,7 +9,7 @@
 (* Expected pillars come from Pillars.tla: pillar-year = civil year from   *)
 (* Lichun on (else year - 1), month = Jie ordinal of the governing term.   *)
 (***************************************************************************)
-EXTENDS Pillars, TermClock, TraceIO, TLC
+EXTENDS Pillars, TermClock, Civil, TraceIO, TLC
 
 VARIABLES l, nv, nt
 
@@ -20,7 +20,8 @@ DayClauses(i) ==
       hasp == e.s = 0 /\ i > 1 /\ Rec[i - 1].k = "d" /\ Rec[i - 1].ok = 1 /\ e.ok = 1 /\ e.j = Rec[i - 1].j + 1
       p == Rec[i - 1]
   IN
-  [ view    |-> e.ok = 1,
+  [ civil     |-> Valid(e.y, e.m, e.d) /\ e.j = JDN(e.y, e.m, e.d),
+    view    |-> e.ok = 1,
     year    |-> e.ok = 1 => (e.yp = wantY /\ e.sy = Y),
     month   |-> (e.ok = 1 /\ e.ti \in 0..23) => e.mp = MonthPillar(wantY, JieOrdinal(e.ti)),
     legal   |-> e.ok = 1 => (e.yp \in 0..59 /\ e.mp \in 0..59 /\ Legal(e.yp, e.mp)),
